@@ -76,19 +76,8 @@ for _c, _e, _t in PCASES:
                         'release of the header structure itself (free(h)): CBMC built-in double-free check only; its leak freedom is not covered']))
 
 # ---- 4. host syntax --------------------------------------------------------------------------------------------
-UNITS.append(U(name='htp_validate_hostname', props=['C11', 'C01'], kind='contract', src=['htp_util.c'], enforce='htp_validate_hostname', contracts_inc=INC,
-               loops={'htp_util.c': {'htp_validate_hostname': {'count': 3,
-                   0: dict(assigns='pos, startpos',
-                           inv=['pos <= len', '(gk < pos) ==> (C11_HOSTCH(data[gk]) || data[gk] == \'.\')', '(pos > 0) ==> (data[0] != \'.\')',
-                                '(gk + 1 < pos) ==> !(data[gk] == \'.\' && data[gk + 1] == \'.\')', '(pos > 0 && pos < len) ==> (data[pos - 1] == \'.\')'],
-                           dec='len - pos'),
-                   1: dict(assigns='pos', inv=['pos <= len', 'startpos <= pos', '(gk >= startpos && gk < pos) ==> C11_HOSTCH(data[gk])'], dec='len - pos'),
-                   2: dict(assigns='pos', inv=['pos <= len', 'startpos <= pos', '(gk >= startpos && gk < pos) ==> (data[gk] == \'.\')'], dec='len - pos')}}},
-               harness='void HARNESS(void) { bstr *h; htp_validate_hostname(h); CANARY(); }',
-               defs={'quick': dict({'VCAP': 300}, **XD), 'thorough': {'VCAP': 1024}}, min_obl=30,
-               sub='relaxed host syntax: empty or > 255 bytes, any byte outside [A-Za-z0-9_-.] (witness over all positions), a leading dot, two dots in a row, '
-                   'an over-long or bracket-only IPv6 literal => 0 (invalid); memory safety and termination for every length',
-               assumes=['inet_pton has no body: the answer for a bracketed literal of acceptable length is unconstrained', 'host string is a read-only bstr of capacity <= VCAP']))
+# htp_validate_hostname: contract_htp_validate_hostname is written (c11_flags.h) but the unit does not terminate within the quick budget yet
+# (three nested loop contracts + symbolic-length memcpy into the IPv6 buffer); see notes/c11.md 'not delivered'.
 UNITS.append(U(name='htp_parse_header_hostport', props=['C11', 'C01'], kind='contract', src=['htp_util.c'], enforce='htp_parse_header_hostport', contracts_inc=INC,
                replace=['htp_parse_hostport/contract_c11s_htp_parse_hostport', 'htp_validate_hostname/contract_c11s_htp_validate_hostname'],
                harness='void HARNESS(void) { bstr *hp; bstr **h; int *pn; uint64_t *f; htp_parse_header_hostport(hp, h, NULL, pn, f); CANARY(); }',
